@@ -1,6 +1,7 @@
 package squashfs
 
 import (
+	"bytes"
 	"io"
 
 	"github.com/diskfs/go-diskfs/internal/vp"
@@ -383,4 +384,75 @@ func VP_C10_sqs_closed() {
 		vp.Cover("seek after close fails with an error")
 	}
 	vp.Cover("read after close")
+}
+
+// VP_C10_sqs_sequence_vs_bytes_reader: the executable specification itself on a file of one
+// data block and a fragment tail (5..7 bytes, 4-byte blocks): Seek(arbitrary offset, start or
+// current) and two Reads of arbitrary length 0..4 on the squashfs handle (empty cache at first,
+// so the second Read runs on whatever cache the first one left) and on a bytes.Reader over the
+// file's content. SeekEnd is the subject of C10.sqs_seek.
+func VP_C10_sqs_sequence_vs_bytes_reader() {
+	const M, K = 7, 4
+	f := c10Sqs([]int{c10Full}, true, -1)
+	fl := f.fl
+	fl.offset = 0
+	content := make([]byte, M)
+	for i := range content {
+		content[i] = f.byteAt(int64(i))
+	}
+	ref := bytes.NewReader(content[:f.size])
+
+	so := vp.I64("seekoff")
+	wh := vp.Int("whence")
+	vp.Assume(wh >= 0)
+	vp.Assume(wh <= 1)
+	vp.NoPanic()
+	p1, e1 := fl.Seek(so, wh)
+	vp.AllowPanic()
+	p2, e2 := ref.Seek(so, wh)
+	if e2 != nil {
+		vp.Assert(e1 != nil, "Seek fails where bytes.Reader.Seek fails")
+		vp.Cover("both seeks rejected")
+	} else {
+		vp.Assert(e1 == nil, "Seek succeeds where bytes.Reader.Seek succeeds")
+		vp.Assert(p1 == p2, "Seek returns what bytes.Reader.Seek returns")
+	}
+	vp.AllocCap(8)
+	for step := 0; step < 2; step++ {
+		k := vp.Int("len" + string(rune('0'+step)))
+		vp.Assume(k >= 0)
+		vp.Assume(k <= K)
+		b1 := make([]byte, K)
+		b2 := make([]byte, K)
+		vp.Unwind(5)
+		vp.NoPanic()
+		n1, r1 := fl.Read(b1[:k])
+		vp.AllowPanic()
+		vp.Unwind(16)
+		n2, r2 := ref.Read(b2[:k])
+		vp.Assert(n1 == n2, "Read returns as many bytes as bytes.Reader.Read")
+		for i := 0; i < K; i++ {
+			vp.Assert(b1[i] == b2[i], "Read delivers the bytes bytes.Reader.Read delivers")
+		}
+		c1, _ := fl.Seek(0, io.SeekCurrent)
+		c2, _ := ref.Seek(0, io.SeekCurrent)
+		vp.Assert(c1 == c2, "cursor where bytes.Reader has it")
+		if r2 == io.EOF {
+			if k > 0 {
+				vp.Assert(r1 == io.EOF, "io.EOF where bytes.Reader reports it")
+				vp.Cover("both report EOF")
+			}
+		}
+		if r1 == io.EOF {
+			vp.Assert(c1 >= f.size, "io.EOF only at the end")
+		} else if k > 0 {
+			vp.Assert(r1 == nil, "no other error")
+		}
+		if n1 > 0 {
+			if step == 1 {
+				vp.Cover("second read delivers bytes")
+			}
+		}
+	}
+	vp.Stop("sequence compared")
 }
